@@ -1057,7 +1057,7 @@ func runLoopStream(c *rig.Ctx) {
 					consts.ClientTimeoutMs, consts.ServerTimeoutNs, limiter.VerifC07LoopTimeoutMs(), int64(clientsets.ServerHeartBeatTimeout))})
 		}
 	}
-	n := c.Budget(250, 15000)
+	n := c.Budget(250, 20000)
 	for i := 0; i < n && !c.Stop(); i++ {
 		h, counts := genLoop(c)
 		reports := 0
